@@ -31,6 +31,7 @@ PARTS = [
     M('n,\\quad\\quad', ('e', 'n'), ('p', ','), ('s', ' '), ('s', ' ')), M('o.\\ \\ \\label{x}', ('e', 'o'), ('p', '.'), ('s', ' '), ('s', ' ')),
     M('\\ge p', ('o', '\\ge'), ('e', 'p')),
     ('text', '\\mbox{ }', ' '), ('text', '\\text{  }', '  '),
+    M('\\quad\\quad - q', ('s', ' '), ('s', ' '), ('o', '-'), ('e', 'q')), M('\\ \\;= r', ('s', ' '), ('s', ' '), ('o', '='), ('e', 'r')),
 ]
 # a document may redefine an operator macro (common preamble line); the scheme must not change
 PREAMBLES = ['', '\\renewcommand{\\le}{\\leqslant}\\renewcommand{\\ge}{\\geqslant}\n']
@@ -215,6 +216,9 @@ class C11:
             yield [[[s1]], 2, 'en', True, 0]
             yield [[[s1]], 3, 'ru', True, 0]
             yield [[[s1, [0]]], 2, 'de', True, 0]
+            # the last row is closed by a row separator: an empty row follows
+            yield [[[s1], []], 0, 'en', True, 0]
+            yield [[[s1], []], 8, 'ru', False, 1]
             yield [[[[0], s1]], 0, 'en', False, 0, 1]
         combos = (('en', False), ('de', True), ('ru', False)) if tier == 'quick' else (('en', False), ('de', True), ('ru', False), ('en', True), ('de', False))
         for s1 in ss:
@@ -286,7 +290,7 @@ class C11:
                                  'detail': dict(det, index=i, char=ch, position=nums[i], span=[a + 1, e])})
                     break
             # no maths source
-            if re.search(r'[\\_^{}&$]|\b[a-px-y]\b', plain):
+            if re.search(r'[\\_^{}&$]|\b[a-rx-y]\b', plain):
                 viol.append({'clause': 'no maths source appears', 'sig': 'C11:leak:' + tag, 'detail': det})
         nparts = sum(len(sec) for row in rows for sec in row)
         nt = nparts > 1 or any(PARTS[p][0] == 'text' or len(PARTS[p][2]) > 1 for row in rows for sec in row for p in sec) or simple
